@@ -162,8 +162,31 @@ def tree_info(node, acc=None):
     return acc
 
 
+def _edit_library_constants(be, N, how):
+    """the caller obtains the identity / zero polynomial from the library and edits *its own* object in place (as the chained set_cs idiom does):
+    later arithmetic - which builds identities internally for `+ number` - must not see those edits."""
+    pm = B.backend(be).mods()['p']
+    if not hasattr(pm, 'pauli_identity'):
+        return
+    I = pm.pauli_identity(N)
+    Z = pm.pauli_zero(N) if hasattr(pm, 'pauli_zero') else None
+    if be == 'np':
+        if how % 2 == 0:
+            I.set_cs(np.array([0.25 + 0j]))
+        else:
+            I.cs *= 2
+        I.gs[0, 0] = 1
+        if Z is not None and Z.gs.size:
+            Z.gs[...] = 1 - Z.gs
+    else:
+        I.cs = I.cs * 2
+        I.gs[0, 0] = 1
+
+
 def f_tree(case):
     be, N, tree = case['be'], case['N'], case['tree']
+    if case.get('edit_constants') is not None:
+        _edit_library_constants(be, N, case['edit_constants'])
     obj = ev_lib(be, tree)
     exp = ev_dense(tree, N)
     got = obj_dense(be, obj, N)
@@ -197,7 +220,8 @@ def st_tree(be, N, depth):
 
 
 def st_treecase(be, hiN):
-    return st.integers(1, hiN).flatmap(lambda N: st.fixed_dictionaries({'be': st.just(be), 'N': st.just(N), 'tree': st_tree(be, N, 4)}))
+    return st.integers(1, hiN).flatmap(lambda N: st.fixed_dictionaries({'be': st.just(be), 'N': st.just(N), 'tree': st_tree(be, N, 4),
+                                                                     'edit_constants': st.sampled_from([None, None, None, 0, 1])}))
 
 
 def f_reduce(case):
